@@ -8,27 +8,30 @@ HEADER = ls.HEADER
 
 
 def oracle(d: ls.Driver):
-    """After an authentication exchange that ended in ERR nothing but ERR/close may follow, and the
-    application session must not receive init / query / use / reset."""
+    """An authentication exchange (the handshake, or one opened by COM_CHANGE_USER) ends with OK or with ERR.  Once one
+    has ended with ERR - a refusal, a provider / plugin failure, a malformed or mis-sequenced reply - nothing but ERR /
+    close may follow and the application session receives no init / query / use / reset.  Before the first OK the session
+    sees nothing but the user lookup."""
     failed_at = None
+    in_exchange = True
     for i, (ev, ob) in enumerate(zip(d.events, d.obs)):
-        if failed_at is not None:
-            for o in ob[0]:
-                if isinstance(o, tuple) and o[0] == "OSess" and o[1] not in ("close",):
+        if ev.startswith("EvPayload") and "CChangeUser" in ev and failed_at is None:
+            in_exchange = True
+        for o in ob[0]:
+            if not isinstance(o, tuple):
+                continue
+            if o[0] == "OSess" and o[1] != "close":
+                if failed_at is not None:
                     return dict(problem=f"session.{o[1]} called after the exchange ended in ERR", failed_at=d.events[failed_at], step=ev)
-                if isinstance(o, tuple) and o[0] == "OWrite":
-                    for q, a, _ in o[1]:
-                        if not (isinstance(a, tuple) and a[0] == "PErr"):
-                            return dict(problem=f"packet {a!r} sent after the exchange ended in ERR", failed_at=d.events[failed_at], step=ev)
-        if failed_at is None and (ev.startswith("EvDecide") or ev.startswith("EvAuthReply")) and \
-                ev.split()[-1] in ("ANoUser", "AForbidden"):
-            errs = [a for o in ob[0] if isinstance(o, tuple) and o[0] == "OWrite" for q, a, _ in o[1]]
-            if not errs or not all(isinstance(a, tuple) and a[0] == "PErr" for a in errs):
-                return dict(problem="refusal not answered by a single ERR", step=ev, packets=repr(errs))
-            for o in ob[0]:
-                if isinstance(o, tuple) and o[0] == "OSess" and o[1] != "close":
-                    return dict(problem=f"session.{o[1]} called right after the refusal", step=ev)
-            failed_at = i
+            if o[0] == "OWrite":
+                for q, a, _ in o[1]:
+                    is_err = isinstance(a, tuple) and a[0] == "PErr"
+                    if failed_at is not None and not is_err:
+                        return dict(problem=f"packet {a!r} sent after the exchange ended in ERR", failed_at=d.events[failed_at], step=ev)
+                    if in_exchange and is_err and failed_at is None:
+                        failed_at = i
+                    if in_exchange and isinstance(a, tuple) and a[0] == "POk":
+                        in_exchange = False
     # pre-auth: no session call other than get_user before the first success
     authed = False
     for ev, ob in zip(d.events, d.obs):
@@ -39,6 +42,32 @@ def oracle(d: ls.Driver):
                 if isinstance(o, tuple) and o[0] == "OSess" and o[1] not in ("get_user", "close"):
                     return dict(problem=f"session.{o[1]} before any successful authentication", step=ev)
     return None
+
+
+def scripted(rng):
+    """exchanges that end in ERR for another reason than a refusal, each followed by a command"""
+    out = []
+    for cu in (False, True):
+        for first in ("ASwitch", "AMore"):
+            for fault in ("EvBadSeq", "ARaise", "AForbidden", "EvBadSeq2"):
+                d = ls.Driver(rng)
+                d.handshake(True, rng.random() < 0.5)
+                if cu:
+                    d.decide("ASuccess"); d.app_result("void")
+                    d.payload(("changeuser",))
+                d.decide(first)
+                if fault == "EvBadSeq2":
+                    d.auth_reply("AMore"); d.simple("EvBadSeq")
+                elif fault == "EvBadSeq":
+                    d.simple("EvBadSeq")
+                else:
+                    d.auth_reply(fault)
+                if d.blocked() == "read":
+                    d.payload(("query",))
+                    if d.blocked() == "app":
+                        d.app_result("set", ncols=1, items=[("row", 1)])
+                out.append(d)
+    return out
 
 
 def run(ctx: core.Ctx):
@@ -56,6 +85,10 @@ def run(ctx: core.Ctx):
             if ev.startswith("EvDecide") or ev.startswith("EvAuthReply") or ev.startswith("EvHandshake"):
                 k = " ".join(ev.split()[:1] + ev.split()[-1:])
                 outcomes[k] = outcomes.get(k, 0) + 1
+        d.close()
+    for d in scripted(rng):
+        drivers.append(d)
+        terms.append(ls.coq_term(d))
         d.close()
     model = core.run_coq_terms(ctx, "c01t", HEADER, terms, shard=25)
     disagreements = []
